@@ -266,6 +266,11 @@ func (am *AccountingManager) StartSession(session *AccountingSession) error {
 	am.sessions[session.SessionID] = session
 	am.sessionsMu.Unlock()
 
+	// Persist session for crash recovery before the Start leaves the box: a
+	// crash after the server has seen the Start must still find the session
+	// on disk, or no Accounting-Stop is ever sent for it.
+	am.persistActiveSession(session)
+
 	// Send Accounting-Start
 	req := &AcctRequest{
 		SessionID:  session.SessionID,
@@ -290,9 +295,6 @@ func (am *AccountingManager) StartSession(session *AccountingSession) error {
 			zap.Error(err),
 		)
 	}
-
-	// Persist session for crash recovery
-	am.persistActiveSession(session)
 
 	am.logger.Info("Accounting started for session",
 		zap.String("session_id", session.SessionID),
